@@ -8,7 +8,7 @@ import base64
 from typing import Final, final
 
 from .._year_month_day import _YearMonthDay
-from ..utility._csharp_compatibility import _sealed, _towards_zero_division
+from ..utility._csharp_compatibility import _sealed
 from ..utility._preconditions import _Preconditions
 from ._year_month_day_calculator import _YearMonthDayCalculator
 
@@ -130,16 +130,10 @@ class _BadiYearMonthDayCalculator(_YearMonthDayCalculator):
             if moving_backwards:
                 this_month += 1
 
-        next_year = this_year
-        next_month_num = this_month + months
-
-        if next_month_num > self.__MONTHS_IN_YEAR:
-            next_year = this_year + _towards_zero_division(next_month_num, self.__MONTHS_IN_YEAR)
-            next_month_num = next_month_num % self.__MONTHS_IN_YEAR
-        elif next_month_num < 1:
-            next_month_num = self.__MONTHS_IN_YEAR - next_month_num
-            next_year = this_year - _towards_zero_division(next_month_num, self.__MONTHS_IN_YEAR)
-            next_month_num = self.__MONTHS_IN_YEAR - next_month_num % self.__MONTHS_IN_YEAR
+        # Zero-based month arithmetic: floor division carries whole years in both directions.
+        years_to_add, zero_based_month = divmod(this_month - 1 + months, self.__MONTHS_IN_YEAR)
+        next_year = this_year + years_to_add
+        next_month_num = zero_based_month + 1
 
         if next_year < self._min_year or next_year > self._max_year:
             raise OverflowError("Date computation would overflow calendar bounds.")
